@@ -387,6 +387,21 @@ func MultiZone(v int) func(name string, t uint16) dohmem.Answer {
 			return dohmem.Answer{Records: []dnsref.RR{{Name: name, Type: t, Class: 1, TTL: 2, Fields: []dnsref.Field{{Raw: ip}}}}}
 		case name == "n5.example" || strings.HasSuffix(name, ".n5.example"):
 			return dohmem.Answer{}
+		// n6 = one service-mode record whose target has THREE A records and one AAAA record (a cached record set of three
+		// elements has spare capacity when it was built by appending; used by the supplementary race pass only: putting a
+		// result together must not write into what the cache holds)
+		case name == "n6.example" && t == 65:
+			return dohmem.Answer{Records: []dnsref.RR{svc(1, "t.n6.example")}}
+		case name == "t.n6.example" && t == 1:
+			var rrs []dnsref.RR
+			for i := byte(1); i <= 3; i++ {
+				rrs = append(rrs, dnsref.RR{Name: name, Type: 1, Class: 1, TTL: 2, Fields: []dnsref.Field{{Raw: []byte{10, 6, 6, i}}}})
+			}
+			return dohmem.Answer{Records: rrs}
+		case name == "t.n6.example" && t == 28:
+			return dohmem.Answer{Records: []dnsref.RR{{Name: name, Type: 28, Class: 1, TTL: 2, Fields: []dnsref.Field{{Raw: append(make([]byte, 15), 6)}}}}}
+		case name == "n6.example" || name == "t.n6.example":
+			return dohmem.Answer{}
 		case name == "n3.example" || name == "n4.example" || name == "elsewhere.example":
 			return dohmem.Answer{}
 		}
